@@ -328,6 +328,17 @@ func init() {
 				}
 			}
 		}
+		// the same shapes in a fullsync job: its second run hands every entity to the transform and the sink again, so
+		// "running it again produces no new changes" compares transform output with what was stored
+		for _, shape := range []string{"identity", "dropeven", "setnested"} {
+			for n := 0; n <= 6; n++ {
+				for b := 1; b <= 3; b++ {
+					for p := 1; p <= 2; p++ {
+						cfgs = append(cfgs, C10Config{N: n, Batch: b, Parallelism: p, Pipeline: "fullsync", Shape: shape, JS: true})
+					}
+				}
+			}
+		}
 		var tasks []json.RawMessage
 		chunk := 40
 		for i := 0; i < len(cfgs); i += chunk {
